@@ -16,6 +16,32 @@ let rec parse_ports (toks : string list) : port list * string list =
     go n rest []
   | [] -> failwith "tree"
 let parse_tree (s : string) : port list = fst (parse_ports (String.split_on_char ',' s))
+
+(* raw port tree -> structured tree (literal runs and '#<digits>'); names_ok is
+   evaluated on it only if it renders back to the raw tree that was run *)
+let rec parse_segs (s : z list) : seg list =
+  let is_digit c = let v = int_of_z c in v >= 48 && v <= 57 in
+  let rec lit acc s = match s with
+    | c :: t when int_of_z c <> 35 -> lit (c :: acc) t
+    | _ -> (List.rev acc, s) in
+  match s with
+  | [] -> []
+  | c :: t when int_of_z c = 35 ->
+    let rec digs acc s = match s with d :: r when is_digit d -> digs (d :: acc) r | _ -> (List.rev acc, s) in
+    let (ds, rest) = digs [] t in
+    let n = List.fold_left (fun a d -> Z.add (Z.mul a (z_of_int 10)) (z_of_int (int_of_z d - 48))) Z0 ds in
+    Enum n :: parse_segs rest
+  | _ -> let (l, rest) = lit [] s in Lit l :: parse_segs rest
+let rec structure (p : port) : sport =
+  let Port (name, meta, sub) = p in
+  let rec split acc s = match s with
+    | c :: t when int_of_z c <> 58 -> split (c :: acc) t
+    | _ -> (List.rev acc, s) in
+  let (path, args) = split [] name in
+  SPort (parse_segs path, args, meta, (match sub with Some l -> Some (List.map structure l) | None -> None))
+let names_ok_raw (t : port list) : bool =
+  let st = List.map structure t in
+  List.map render_port st = t && names_ok st
 let show_id (id : nat list) = String.concat "." (List.map (fun n -> string_of_int (int_of_nat n)) id)
 let addr_list (f : string) : z list list = if f = "-" then [] else List.map bytes_of_hex (split_on ';' f)
 
@@ -34,10 +60,10 @@ let () = each_line (fun line ->
         let o = if rt = "1" then Some { o_null = mem nl; o_disabled = mem dl; o_selfoff = mem sl } else None in
         (match walk o t (bytes_of_hex hb) with
          | WOk (reps, b) ->
-           Printf.sprintf "w=%s buf=%s"
+           Printf.sprintf "w=%s buf=%s ok=%d"
              (if reps = [] then "-" else
                 String.concat ";" (List.map (fun (id, a) -> show_id id ^ "@" ^ hex_of_bytes a) reps))
-             (hex_of_bytes b)
+             (hex_of_bytes b) (if names_ok_raw t then 1 else 0)
          | WFail -> "FAIL")
       | _ -> "BADCASE"
     with _ -> "BADCASE" in
